@@ -13,6 +13,12 @@
 (* Restart happened in between.  A refused statement changes nothing.       *)
 EXTENDS Values, TLC
 
+\* FALSE: UpdateAll is defined only where every row has the same outcome (the
+\* scope of C08).  TRUE: also where some new rows are accepted and some are
+\* refused; the statement is atomic - it succeeds iff every new row is
+\* accepted, otherwise nothing changes (C14 at this level).
+CONSTANT MixedUpd
+
 VARIABLES schema,   \* sequence of column types
           abs,      \* ghost: sequence of rows the history implies
           mem,      \* table as seen through the cache (when warm)
@@ -56,14 +62,19 @@ NewRows(tbl, set, k) == [r \in 1..Len(tbl) |-> Override(tbl[r], set, k)]
 AllAccepted(tbl) == \A r \in 1..Len(tbl) : Accept(schema, tbl[r])
 NoneAccepted(tbl) == \A r \in 1..Len(tbl) : ~Accept(schema, tbl[r])
 
-\* UPDATE ... SET (no WHERE): every row gets the new values.  The action is
-\* defined where the outcome is the same for every row (a statement failing
-\* on a later row only is the subject of C14, not of C08) and there is a row
-\* (an UPDATE that matches nothing stores nothing and validates nothing).
+\* some new rows would be accepted and some refused
+Mixed(tbl) == ~AllAccepted(tbl) /\ ~NoneAccepted(tbl)
+
+\* UPDATE ... SET (no WHERE): every row gets the new values, or - when one of
+\* the new rows is refused - none does and the statement reports the error.
+\* There must be a row (an UPDATE that matches nothing stores nothing and
+\* validates nothing).  With MixedUpd = FALSE the action is defined only where
+\* the outcome is the same for every row (C08); with MixedUpd = TRUE also where
+\* the statement fails on some rows only: still nothing changes (C14).
 UpdateAll(set) ==
   LET new == NewRows(Load, set, nmut + 1) IN
   /\ Len(Load) >= 1
-  /\ AllAccepted(new) \/ NoneAccepted(new)
+  /\ MixedUpd \/ ~Mixed(new)
   /\ nmut' = nmut + 1
   /\ warm' = TRUE
   /\ IF AllAccepted(new)
@@ -103,7 +114,8 @@ OnlyAcceptedStored == \A r \in 1..Len(abs) : Accept(schema, abs[r])
 MechanismOK == /\ Load = abs
                /\ (~dirty) => disk = abs
 
-\* a refused statement changes nothing
+\* a refused statement changes nothing (C14 at this level: with MixedUpd this
+\* includes an UPDATE that only some of the rows refuse)
 RefusedChangesNothing ==
   [][ (ret'.op \in {"put", "upd"} /\ ~ret'.ok) => (abs' = abs /\ Load' = Load /\ disk' = disk) ]_vsVars
 
